@@ -164,10 +164,40 @@ def _check_snap(run, world, mod, rfn):
              "same expression; read_all drops exactly "
              "MemoryLocationNotImplemented; list index == location address")
     ffn = world.method(MV, "from_list")[2]
-    rret = [unparse(n.value) for n in ast.walk(rfn) if isinstance(
-        n, ast.Return) and n.value is not None]
-    fret = [unparse(n.value) for n in ast.walk(ffn) if isinstance(
-        n, ast.Return) and n.value is not None]
+    from ..normal import normalise
+    mvcls = world.cls(MV)
+
+    def interp_returns(fn):
+        """Return expressions after inlining helpers; an interpretation
+        `cls.check_raw(X) or cls.raw_to_value(X)` of one name X is written
+        with X as `raw`."""
+        nf = normalise(fn, world, LOC, mvcls, aliases="params")
+        out = []
+        tmp = {}
+        for n in ast.walk(nf):
+            if isinstance(n, ast.Assign) and len(n.targets) == 1 and \
+                    isinstance(n.targets[0], ast.Name) and \
+                    n.targets[0].id.startswith("__ret_"):
+                tmp[n.targets[0].id] = n.value
+        for n in ast.walk(nf):
+            if not (isinstance(n, ast.Return) and n.value is not None):
+                continue
+            v = n.value
+            if isinstance(v, ast.Name) and v.id in tmp:
+                v = tmp[v.id]  # the value of an inlined helper call
+            if isinstance(v, ast.BoolOp) and isinstance(v.op, ast.Or) and \
+                    len(v.values) == 2 and all(
+                        isinstance(c, ast.Call) and len(c.args) == 1 and
+                        not c.keywords and isinstance(c.args[0], ast.Name)
+                        for c in v.values) and \
+                    v.values[0].args[0].id == v.values[1].args[0].id:
+                out.append("%s(raw) or %s(raw)" % (
+                    unparse(v.values[0].func), unparse(v.values[1].func)))
+            else:
+                out.append(unparse(v))
+        return out
+    rret = interp_returns(rfn)
+    fret = interp_returns(ffn)
     want = "cls.check_raw(raw) or cls.raw_to_value(raw)"
     run.ob("R-MEMR-SNAP", MV + "#read~from_list",
            rret == [want] and fret == [want],
